@@ -22,6 +22,7 @@ type Obligation struct {
 	Props     []string
 	Canary    string
 	LemmaIndex int // for lemma obligations: only lemmas declared earlier may be used (-1: all)
+	LemmasUsed []string // proved lemmas that were available as axioms in this obligation's query
 	// results
 	Res *SolveResult
 }
@@ -1153,6 +1154,8 @@ func (x *Exec) doReturn(s *State, vals []*Term, entry *State, pos token.Pos) {
 		}
 		goal := x.trBool(e.Expr, env)
 		x.obligeSplit(s, "ensures", label+tag, goal, e.Text, e.Pos)
+		// later postconditions may use earlier ones (all of them must hold)
+		s.assume(goal)
 	}
 	x.checkFrame(s, entry, x.c.Assigns, x.c.HasAssigns, "frame", tag, x.envFor(entry, entry, token.NoPos))
 }
